@@ -349,6 +349,21 @@ func runExprClaims(meta *common.Meta, seed int64, outDir string, n int) {
 		}
 		cases = append(cases, &exprCase{fn: fmt.Sprintf("f%d", len(cases)), src: e, msgs: map[string][]string{}})
 	}
+	// instances every run contains: self-comparisons of every float-like operand kind (predeclared, defined,
+	// complex, defined complex, struct field, type conversion), operands that are equal expressions but distinct
+	// objects (addresses of composite literals)
+	for _, e := range []string{"p != p", "mf != mf", "mf == mf", "mf <= mf", "cx != cx", "cx == cx", "mc != mc", "mc2 == mc2", "w.g != w.g", "float64(mf) != float64(mf)",
+		"myF(p) == myF(p)", "fa[0] != fa[0]", "&st{a} == &st{a}", "&st{a} != &st{a}", "&myArr{a} == &myArr{a}", "&a == &a", "pa == pa", "pe != pe",
+		"-p == -p", "p - p == 0", "mf - mf == 0", "cx - cx == 0"} {
+		if seen[e] {
+			continue
+		}
+		seen[e] = true
+		if _, err := exprgen.Load("p.go", lintHeader+exprgen.LintPreamble+"func f("+exprgen.Params+") bool { return "+e+" }\n"); err != nil {
+			panic("fixed claim instance does not type-check: " + e + ": " + err.Error())
+		}
+		cases = append(cases, &exprCase{fn: fmt.Sprintf("f%d", len(cases)), src: e, msgs: map[string][]string{}})
+	}
 	meta.Distribution["expr_rejected_by_typecheck"] = rejected
 	var src strings.Builder
 	src.WriteString(lintHeader + exprgen.LintPreamble)
@@ -503,7 +518,7 @@ func runExprClaims(meta *common.Meta, seed int64, outDir string, n int) {
 			dc.Expect = "panic"
 		case "dupSubExpr":
 			b := node.(*ast.BinaryExpr)
-			dc.Orig = "fmt.Sprint(" + l.Text(b.X) + ") == fmt.Sprint(" + l.Text(b.Y) + ")"
+			dc.Orig = "verifSame(" + l.Text(b.X) + ", " + l.Text(b.Y) + ")"
 			dc.Expect = "true"
 		case "dupArg":
 			ce := node.(*ast.CallExpr)
@@ -571,6 +586,8 @@ func runExprClaims(meta *common.Meta, seed int64, outDir string, n int) {
 			class = "mutating-conjunct"
 		} else if impureCallRe.MatchString(m.Case.Orig) {
 			class = "impure-operand"
+		} else if f.checker == "dupSubExpr" && strings.Contains(m.Case.Orig, "verifSame(&") {
+			class = "distinct-objects-equal-text"
 		} else if f.checker == "offBy1" {
 			if ix, ok := findFlagged(l, rets[f.c.fn], f.pos, f.checker, f.text).(*ast.IndexExpr); ok {
 				switch l.Info.TypeOf(ix.X).Underlying().(type) {
@@ -591,7 +608,7 @@ func runExprClaims(meta *common.Meta, seed int64, outDir string, n int) {
 
 // operands the model has no counterpart for: maps, pointers to arrays, complex numbers, opaque calls returning a
 // defined type, struct values with methods, package variables changed by calls, closures, interface-typed fields
-var outsideFragmentRe = regexp.MustCompile(`\b(mm|pa|gxs|fa|mc|mc2|fmf|vv|it|val|gn|bumpG|func|refill|err)\b`)
+var outsideFragmentRe = regexp.MustCompile(`\b(gxs|fa|mc|mc2|fmf|vv|it|val|gn|bumpG|func|refill|err|cx|st|myArr|myF|float64|pe)\b|(?:^|[^&])&[A-Za-z(]`)
 
 var impureCallRe = regexp.MustCompile(`\b(fi|gi|hi|fu|ff|hf|fs|fb|fbs|fxs|fmf|Next)\(`)
 var mutatingRe = regexp.MustCompile(`refill\(\)|bumpG\(\)|func\(\) bool`)
@@ -688,6 +705,29 @@ func (T4) M3() {}
 type P1 struct{}
 
 func (*P1) M1() {}
+
+// interfaces declared ONLY by embedding (no explicit method, non-empty method set), embedding plus an explicit
+// method, and the empty interface under its other spellings
+type I5 interface {
+	I1
+	I3
+}
+type I6 interface{ I2 }
+type I7 interface {
+	error
+	I1
+}
+type I8 interface {
+	I3
+	M1()
+}
+type E0 = interface{}
+type E1 interface{}
+
+type T5 struct{}
+
+func (T5) M1()           {}
+func (T5) Error() string { return "" }
 `
 
 // universe of case entries: text, kind
@@ -696,7 +736,12 @@ var universe = []struct{ text, kind string }{
 	{"interface{}", "KIface"}, {"I1", "KIface"}, {"I2", "KIface"}, {"I3", "KIface"}, {"I4", "KIface"}, {"error", "KIface"},
 	{"T0", "KConcrete"}, {"T1", "KConcrete"}, {"T2", "KConcrete"}, {"T3", "KConcrete"}, {"T4", "KConcrete"},
 	{"P1", "KConcrete"}, {"*P1", "KConcrete"}, {"*T1", "KConcrete"}, {"*T2", "KConcrete"}, {"int", "KConcrete"}, {"string", "KConcrete"},
+	// appended (indices above are referred to by dynValues)
+	{"I5", "KIface"}, {"I6", "KIface"}, {"I7", "KIface"}, {"I8", "KIface"}, {"any", "KIface"}, {"E0", "KIface"}, {"E1", "KIface"}, {"T5", "KConcrete"},
 }
+
+// spellings of one and the same type: at most one of them may occur in a switch (duplicate case otherwise)
+var sameType = map[string]bool{"interface{}": true, "any": true, "E0": true}
 
 // run-time values of every concrete type of the universe, plus the nil interface
 var dynValues = []struct {
@@ -704,7 +749,7 @@ var dynValues = []struct {
 	id   int // universe index of the dynamic type, -1 for nil
 }{
 	{"nil", -1}, {"T0{}", 7}, {"T1{}", 8}, {"T2{}", 9}, {"T3{}", 10}, {"T4{}", 11}, {"P1{}", 12}, {"&P1{}", 13}, {"&T1{}", 14}, {"&T2{}", 15}, {"1", 16}, {`"x"`, 17},
-	{"(*P1)(nil)", 13}, {"(*T1)(nil)", 14},
+	{"(*P1)(nil)", 13}, {"(*T1)(nil)", 14}, {"T5{}", 25},
 }
 
 type swCase struct {
@@ -723,6 +768,23 @@ func runCaseOrder(meta *common.Meta, seed int64, outDir string, n int) {
 	for len(sws) < n {
 		k := 2 + r.Intn(5)
 		perm := r.Perm(len(universe))[:k]
+		{
+			var kept []int
+			haveEmpty := false
+			for _, u := range perm {
+				if sameType[universe[u].text] {
+					if haveEmpty {
+						continue
+					}
+					haveEmpty = true
+				}
+				kept = append(kept, u)
+			}
+			perm = kept
+			if len(perm) < 2 {
+				continue
+			}
+		}
 		// bias: interfaces early half of the time
 		if r.Intn(2) == 0 {
 			sort.SliceStable(perm, func(i, j int) bool {
@@ -1038,6 +1100,26 @@ func runNilValReturn(meta *common.Meta, seed int64, outDir string) {
 			}
 		}
 	}
+	// results that LOOK like the checked operand without being it: another object's field of the same name,
+	// another element of the same container, another variable; and the checked operand under parentheses
+	for _, la := range []struct{ pro, x, ret, resT string }{
+		{"pp := &node{a, nil}; pq := &node{b, &node{c, nil}}", "pp.next", "pq.next", "*node"},
+		{"pp := &node{a, nil}; pq := &node{b, &node{c, nil}}", "pp.next", "pp.next", "*node"},
+		{"pp := &node{a, nil}; pq := &node{b, &node{c, nil}}; _ = pq", "pp.next", "(pp.next)", "*node"},
+		{"mp := map[int][]int{0: {1}}", "mp[a]", "mp[0]", "[]int"},
+		{"mp := map[int][]int{0: {1}}", "mp[a]", "mp[a]", "[]int"},
+		{"ys := []int{1}", "xs", "ys", "[]int"},
+		{"ys := []int{1}; _ = ys", "(xs)", "xs", "[]int"},
+		{"ys := [][]int{{1}, nil}", "ys[1]", "ys[0]", "[]int"},
+		{"wq := &wr{err: myErr{}}", "w.err", "wq.err", "error"},
+	} {
+		c := &nvrCase{resT: la.resT, final: "nil", x: la.x, y: "nil", op: "==", cond: la.x + " == nil", rets: []string{la.ret}, pro: la.pro}
+		if _, err := exprgen.Load("p.go", lintHeader+exprgen.LintPreamble+renderNvr("f", c)); err != nil {
+			continue
+		}
+		c.fn = fmt.Sprintf("n%d", len(cases))
+		cases = append(cases, c)
+	}
 	var src strings.Builder
 	src.WriteString(lintHeader + exprgen.LintPreamble)
 	for _, c := range cases {
@@ -1092,7 +1174,23 @@ func runNilValReturn(meta *common.Meta, seed int64, outDir string) {
 				pro += "; "
 			}
 			// nil-ness is judged by a helper declared where `nil` is the predeclared identifier
-			text := "func() bool { " + pro + "if " + c.cond + " { " + pre + "return verifIsNil(" + l.Text(cond.X) + ") }; return true }()"
+			// the claim is about what the return statement returns: one of its results must be nil there
+			var obs []string
+			for _, rt := range c.rets {
+				obs = append(obs, "verifIsNil("+rt+")")
+			}
+			text := "func() bool { " + pro + "if " + c.cond + " { " + pre + "return " + strings.Join(obs, " || ") + " }; return true }()"
+			found := false
+			for _, rt := range c.rets {
+				if strings.ReplaceAll(rt, " ", "") == strings.ReplaceAll(l.Text(cond.X), " ", "") {
+					found = true
+				}
+			}
+			if !found {
+				meta.Fail("C12/nilValReturn/replacement-not-in-return",
+					fmt.Sprintf("nilValReturn says %q for `%s; if %s { return %s }`: the expression to replace does not occur among the returned expressions", c.msgs[0], c.pro, c.cond, strings.Join(c.rets, ", ")),
+					map[string]interface{}{"prologue": c.pro, "cond": c.cond, "returns": c.rets, "message": c.msgs[0]})
+			}
 			dcs = append(dcs, &exprgen.DiffCase{ID: len(dcs), Kind: "expr", Orig: text, Expect: "true", Inputs: exprgen.Grid(rg, text, 40), Tag: c})
 			// "replace X with nil": the function's result as the caller sees it, before and after the replacement
 			if len(c.rets) == 1 && c.rets[0] == l.Text(cond.X) {
@@ -1363,6 +1461,9 @@ func runCaseOrderGeneric(meta *common.Meta, outDir string) {
 		{"I3", []string{"T", "T3", "nil"}, []string{"T3", "T4"}},
 		{"interface{}", []string{"T", "int", "T0"}, []string{"int", "string", "T0"}},
 		{"I1", []string{"T", "I2"}, []string{"T1", "T2"}},
+		{"interface{ int | string }", []string{"T", "int", "string"}, []string{"int", "string"}},
+		{"I5", []string{"T", "T4", "T3"}, []string{"T4"}},
+		{"any", []string{"T", "T0", "nil"}, []string{"T0", "int"}},
 	}
 	var src strings.Builder
 	src.WriteString("package p\n" + latticeSrc)
